@@ -127,7 +127,7 @@ def meta(r, wild=True):
 
 
 BUCKET_IDS = ["b0", "b1", "b2", "b3"]
-UNICODE_BUCKET_IDS = ["aw-watcher-window_höst", "b/ü", "б2", "cafe\u0301 b 3"]  # the last one is not NFC-normalised
+UNICODE_BUCKET_IDS = ["aw-watcher-window_Zoë's-laptop", "b/ü#1", "б2", "cafe\u0301 b 3"]  # the last one is not NFC-normalised
 GLOB_BUCKET_IDS = ["scratch[1]", "scratch1", "a?", "ab"]  # ids that read as fnmatch patterns of each other
 CASE_BUCKET_IDS = ["aw-watcher-afk_Laptop", "aw-watcher-afk_laptop", "AW-WATCHER-AFK_LAPTOP", "b0"]  # differ only in case
 
